@@ -22,8 +22,12 @@ impl std::str::FromStr for Signature {
         // but all my files have it starting after a space in the same line and that works.
         // It's quite confusing, but let it be... we have to deal with reality.
         if text.contains("\n") {
-            // If text is multiline, we assume PGP Public Key block
-            Ok(Signature::KeyBlock(text.to_string()))
+            // If text is multiline, we assume PGP Public Key block; the block
+            // is printed (and usually written) starting on the line after the
+            // field name, that newline is not part of it
+            Ok(Signature::KeyBlock(
+                text.strip_prefix('\n').unwrap_or(text).to_string(),
+            ))
         } else {
             // otherwise one-liner is a path
             Ok(Signature::KeyPath(text.into()))
